@@ -88,20 +88,26 @@ theorem Layout.read_normalize (e : Endian) (lay : Layout) (l : Bytes) :
     simp only [Layout.normalize, Layout.read, Option.getD, readFields_mergePads,
       (readFields_pushEndian le e fs _ _).2, readMagic]
 
+theorem Layout.read_normalizeAt (e : Endian) (lay : Layout) (l : Bytes) :
+    Layout.read e (lay.normalizeAt e) l = Layout.read e lay l := by
+  rcases lay with ⟨le, m, fs, c⟩
+  rw [Layout.normalizeAt, Layout.read_normalize]
+  cases le <;> simp only [Layout.read, Option.getD]
+
 /-- two layouts with the same normal form read the same -/
-theorem Layout.read_congr (e : Endian) {G E : Layout} (h : G.normalize = E.normalize) :
+theorem Layout.read_congr (e : Endian) {G E : Layout} (h : G.normalizeAt e = E.normalizeAt e) :
     Layout.read e G = Layout.read e E := by
-  funext l; rw [← Layout.read_normalize e G, h, Layout.read_normalize]
+  funext l; rw [← Layout.read_normalizeAt e G, h, Layout.read_normalizeAt]
 
 /-- the two steps of a tie combined: `model = read expected` (by hand, once) and
 `normalize generated = normalize expected` (re-checked on every run) give `model = read generated` -/
 theorem tie {α : Type} {proj : List Value → Option α} {model : Bytes → Option (α × Bytes)} {e : Endian}
-    {G E : Layout} (h1 : ∀ l, model l = via proj (Layout.read e E l)) (h2 : G.normalize = E.normalize)
+    {G E : Layout} (h1 : ∀ l, model l = via proj (Layout.read e E l)) (h2 : G.normalizeAt e = E.normalizeAt e)
     (l : Bytes) : model l = via proj (Layout.read e G l) := by
   rw [h1, Layout.read_congr e h2]
 
 theorem Kind.read_array_struct_congr (e : Endian) (env : List Value) (n : Count) {G E : Layout}
-    (h : G.normalize = E.normalize) (l : Bytes) :
+    (h : G.normalizeAt e = E.normalizeAt e) (l : Bytes) :
     Kind.read e env (.array n (.struct G)) l = Kind.read e env (.array n (.struct E)) l := by
   simp only [Kind.read, Layout.read_congr e h]
 
